@@ -188,19 +188,33 @@ def main():
                                       T, rp, key)
                     # same physical state when requested inside a context
                     if cond == "thermal_excited_state":
-                        with qr.eigenbasis_of(H):
-                            r_in = ag.get_DensityMatrix(
-                                condition_type=cond,
-                                relaxation_theory_limit=limit, temperature=T)
-                        d_in = numpy.array(r_in.data)
-                        e = float(numpy.abs(d_in - d_out).max())
-                        ck.case("same-state-inside-outside",
-                                (name, T, limit), sample=dict(rp, err=e))
-                        if e > 1e-10:
-                            ck.violation(
-                                "same-state-inside-outside",
-                                "%s:requested-inside-context" % limit,
-                                dict(rp, err=e), rp)
+                        # one context, another operator's context, and both
+                        # nestings of two non-commuting ones
+                        nd = H.dim
+                        Bm = numpy.random.RandomState(nd).randn(nd, nd)
+                        A = qr.qm.SelfAdjointOperator(data=(Bm + Bm.T) / 2)
+                        for cname, ops in (("H", [H]), ("A", [A]),
+                                           ("A>H", [A, H]), ("H>A", [H, A])):
+                            import contextlib
+                            with contextlib.ExitStack() as stack:
+                                for op in ops:
+                                    stack.enter_context(qr.eigenbasis_of(op))
+                                r_in = ag.get_DensityMatrix(
+                                    condition_type=cond,
+                                    relaxation_theory_limit=limit,
+                                    temperature=T)
+                            d_in = numpy.array(r_in.data)
+                            e = float(numpy.abs(d_in - d_out).max())
+                            ck.case("same-state-inside-outside",
+                                    (name, T, limit, cname),
+                                    sample=dict(rp, contexts=cname, err=e))
+                            if e > 1e-10:
+                                ck.violation(
+                                    "same-state-inside-outside",
+                                    "%s:requested-inside-context:%s" % (
+                                        limit, "nested" if len(ops) > 1
+                                        else "single"),
+                                    dict(rp, contexts=cname, err=e), rp)
         # thermal reduced density matrix of the aggregate, also inside units
         for u in ("int", "1/cm", "eV"):
             rp = dict(kind="aggregate-thermal-rdm", system=name, units=u)
